@@ -37,6 +37,12 @@ def _now_symbol(expr, fn):
             if isinstance(node.ctx, ast.Load) and rules.is_current_time(node, fn):
                 return ast.Name(id=NOW, ctx=ast.Load())
             return self.generic_visit(node)
+
+        def visit_Call(self, node):
+            # the clock read through its getter (`time._now()`)
+            if rules.is_clock_call(node, fn):
+                return ast.Name(id=NOW, ctx=ast.Load())
+            return self.generic_visit(node)
     return Sub().visit(copy.deepcopy(expr))
 
 
@@ -267,7 +273,7 @@ def run(check, an: Analysis):
     from . import _scope, c03, c15
     c03._check_signal_lifecycles(
         check, an, _scope.wrapper_callee(an), rule='P',
-        only=lambda fn, cls: fn.cls is None and fn.name in ('suspend', 'postpone'))
+        only=lambda fn, cls: fn.cls is None and fn.module.name == 'usim._primitives.notification')
     c15.check_assign_restores(check, an, 'P')
     check.stats.update(an.stats())
 
